@@ -328,6 +328,7 @@ func wlCellEvents(id int, sc Scenario, seed int64, pre *spg.WLRecipe, preWL *spg
 			prod.Mul(prod, big.NewInt(int64(d.N)))
 		}
 		ev.ND = len(ev.D)
+		ev.PathProd = Limbs(prod)
 		if len(ev.D) > 1200 {
 			ev.D, ev.Trunc = ev.D[:1200], 1
 		}
